@@ -100,21 +100,28 @@ impl<F: FnOnce()> Drop for OnDrop<F> {
     }
 }
 
-/// The call is made by a destructor (RAII cleanup) that runs while this thread unwinds from a user panic, which is
-/// caught further out. A panic of the call itself is caught inside the destructor (it must not escape from it).
-pub fn call_while_unwinding(inst: &mut Unimock, method: u8, arg: u8) -> Result<u32, String> {
+/// Run `f` as the body of a destructor (RAII cleanup) that runs while this thread unwinds from a user panic,
+/// which is caught further out. `f` must not let a panic escape (it would abort the process).
+pub fn while_unwinding<R>(f: impl FnOnce() -> R) -> Result<R, String> {
     let mut slot = None;
+    let mut unwinding = false;
     let _ = std::panic::catch_unwind(std::panic::AssertUnwindSafe(|| {
         let _guard = OnDrop(Some(|| {
-            slot = Some(if std::thread::panicking() {
-                catch(|| traits::call(inst, method, arg))
-            } else {
-                Err("HARNESS: the destructor did not run during an unwinding".to_string())
-            });
+            unwinding = std::thread::panicking();
+            slot = Some(f());
         }));
         std::panic::resume_unwind(Box::new("user panic (expected)"));
     }));
-    slot.unwrap_or_else(|| Err("HARNESS: the destructor did not run".to_string()))
+    if !unwinding {
+        return Err("HARNESS: the destructor did not run during an unwinding".to_string());
+    }
+    slot.ok_or_else(|| "HARNESS: the destructor did not run".to_string())
+}
+
+/// The call is made by a destructor that runs during an unwinding. A panic of the call itself is caught inside
+/// the destructor (it must not escape from it).
+pub fn call_while_unwinding(inst: &mut Unimock, method: u8, arg: u8) -> Result<u32, String> {
+    while_unwinding(|| catch(|| traits::call(inst, method, arg)))?
 }
 
 pub fn run_real(scn: &Scenario) -> RealRun {
